@@ -1268,8 +1268,31 @@ func key(js []byte) [16]byte {
 	return k16
 }
 
+
+// observed reports outcomes that are recorded but NOT judged as violations of
+// C13 (decided by the lead, see DESIGN.md C13):
+//   - a refused edit that changes only the serialized form (null -> {} or an
+//     added empty container) while every query answers the same: the statement
+//     demands that the METADATA is unchanged, not its bytes;
+//   - a panic of the repository API on a root-only repository: a crash, but
+//     the metadata stays well formed and nothing is accepted.
+func observed(col *evid.Collector, sig string) bool {
+	switch {
+	case strings.HasPrefix(sig, "C13:refused-edit-mutates-json-only:"):
+		col.Inc("observed_refused_edit_changes_serialized_form_only")
+		return true
+	case strings.HasPrefix(sig, "C13:api-panics:"):
+		col.Inc("observed_api_panic")
+		return true
+	}
+	return false
+}
+
 func report(col *evid.Collector, sub *subject, start string, path []*op, vs []verdict) {
 	for _, v := range vs {
+		if observed(col, v.sig) {
+			continue
+		}
 		col.Violation(v.sig, fmt.Sprintf("[%s from %s] %s", sub.Name, start, v.what), replay{Subject: sub.Name, Start: start, Ops: names(path)})
 	}
 }
@@ -1805,6 +1828,9 @@ func searchAPI(t *testing.T, col *evid.Collector, thorough bool, item *int) bool
 					}
 					col.Class("api.%s[%s]/%s", p.Mut, p.Tag, outcome)
 					for _, v := range vs {
+						if observed(col, v.sig) {
+							continue
+						}
 						col.Violation(v.sig, fmt.Sprintf("[api from %s] %s", start, v.what), replay{Subject: "api", Start: start, Ops: path})
 					}
 					if len(vs) > 0 || seen[k] {
@@ -1859,6 +1885,9 @@ func replayAPI(t *testing.T, col *evid.Collector, r replay) {
 		col.Inc("evaluations")
 		fmt.Printf("replay: %s -> %s\n", name, errClass(opErr))
 		for _, v := range vs {
+			if observed(col, v.sig) {
+				continue
+			}
 			col.Violation(v.sig, fmt.Sprintf("[api from %s] %s", r.Start, v.what), replay{Subject: "api", Start: r.Start, Ops: path})
 		}
 		if len(vs) > 0 {
